@@ -215,6 +215,19 @@ def mutable_ids(obj, acc=None, path="", skip_fields=()):
     return acc
 
 
+def _conforms(v, ty, PRIM) -> bool:
+    """does the run-time value respect every `immutable` claim of the static type?"""
+    if ty == PRIM:
+        return _is_prim_value(v)
+    if ty[0] == "list" and isinstance(v, (list, set, tuple, frozenset)):
+        return all(_conforms(x, ty[1], PRIM) for x in v)
+    if ty[0] == "dict" and isinstance(v, dict):
+        return all(_conforms(x, ty[1], PRIM) for x in v.values())
+    if ty[0] == "htuple" and isinstance(v, tuple) and len(ty[1]) == len(v):
+        return all(_conforms(x, t, PRIM) for x, t in zip(v, ty[1]))
+    return True
+
+
 def classification_mismatches(obj, ty_of_annotation, PRIM, seen=None, path="", out=None):
     """fields whose static type the translator treats as immutable but whose run-time value is a mutable object"""
     import typing
@@ -234,8 +247,8 @@ def classification_mismatches(obj, ty_of_annotation, PRIM, seen=None, path="", o
             f = cls.model_fields.get(k)
             if f is not None:
                 ty = ty_of_annotation(hints.get(k, f.annotation), vars(_sys.modules[cls.__module__]))
-                if ty == PRIM and not _is_prim_value(v):
-                    out.append(f"{path}.{k}: {cls.__name__}.{k} is statically immutable but holds {type(v).__name__}")
+                if not _conforms(v, ty, PRIM):
+                    out.append(f"{path}.{k}: {cls.__name__}.{k} is statically {ty!r} but holds {type(v).__name__} {str(v)[:60]}")
             classification_mismatches(v, ty_of_annotation, PRIM, seen, f"{path}.{k}", out)
     elif isinstance(obj, dict):
         for k, v in obj.items():
